@@ -19,7 +19,7 @@ ORACLES = {
                  '  CHECK(OUT[O_CTX] == 0, "a const or by-value context is not modified for the caller");\n',
     'lexcalls':  '  CHECK((OUT[O_FLAGS] & 16u) == 0, "the custom lexer is only asked inside the buffer");\n'
                  '  CHECK(OUT[O_LEXCALLS] == ref_lexcalls, "the custom lexer is asked exactly once per needed term");\n'
-                 '  CHECK(OUT[O_LEXHASH] == ref_lexhash, "the custom lexer is asked at the reference offsets (after the same whitespace skipping)");\n',
+                 '  CHECK(OUT[O_LEXHASH] == ref_lexhash, "the custom lexer is asked at the reference offsets with the source point of that offset (after the same whitespace skipping)");\n',
     'dual_hist': '  /* the earlier call (O_ALT_*) ran on another input; nothing to compare with it - its only role is to precede this call */\n',
     'moves':     '  CHECK((OUT[O_FLAGS] & 16u) == 0, "no semantic value is handed to a functor, moved or returned after it has been moved from (each value is consumed at most once)");\n',
     'inbuf':     '  CHECK((OUT[O_FLAGS] & 64u) == 0, "the parser never reads at or beyond end() of a caller buffer that is a slice of larger storage");\n',
